@@ -3,7 +3,7 @@
   a call that raises leaves the kernel exactly as it was; the frame (other processes, kernel
   parameters) holds for `stepX` / `stepPy` in every context and configuration.
 -/
-import PsutilModel.Proofs.C18Ctx
+import PsutilModel.Proofs.C18Priv
 namespace Psutil.C18
 
 /-- "if the call raised, the kernel is the one before the call" -/
@@ -81,6 +81,49 @@ theorem excKeeps_rlimitL (c : Cfg) (k : Kernel) (pid : Nat) (res : Int) (l : Opt
         · exact excKeeps_ok _ _ _
         · exact excKeeps_same _ _
 
+theorem excKeeps_cpuAffinitySetP (c : Cfg) (el : Option (List Nat)) (k : Kernel) (pid : Nat) (l : List Int) :
+    ExcKeeps k (cpuAffinitySetP c el k pid l) := by
+  unfold cpuAffinitySetP
+  split
+  · exact excKeeps_ok _ _ _
+  · split
+    · split
+      · exact excKeeps_same _ _
+      · split
+        · exact excKeeps_same _ _
+        · split <;> exact excKeeps_same _ _
+    · exact excKeeps_same _ _
+
+theorem excKeeps_niceSetX (c : Cfg) (k : Kernel) (pid : Nat) (v : Int) : ExcKeeps k (niceSetX c k pid v) := by
+  unfold niceSetX; split
+  · exact excKeeps_ok _ _ _
+  · exact excKeeps_same _ _
+
+theorem excKeeps_ioniceSetX (c : Cfg) (k : Kernel) (pid : Nat) (cls : Int) (v : Option Int) :
+    ExcKeeps k (ioniceSetX c k pid cls v) := by
+  unfold ioniceSetX
+  simp only
+  split
+  · exact excKeeps_same _ _
+  · split
+    · exact excKeeps_same _ _
+    · split
+      · exact excKeeps_ok _ _ _
+      · exact excKeeps_same _ _
+
+theorem excKeeps_rlimitLX (c : Cfg) (k : Kernel) (pid : Nat) (res : Int) (l : Option (List Int)) :
+    ExcKeeps k (rlimitLX c k pid res l) := by
+  unfold rlimitLX
+  split
+  · exact excKeeps_same _ _
+  · split
+    · split <;> exact excKeeps_same _ _
+    · split
+      · exact excKeeps_same _ _
+      · split
+        · exact excKeeps_ok _ _ _
+        · exact excKeeps_same _ _
+
 theorem excKeeps_cpuAffinityX (c : Cfg) (k : Kernel) (pid : Nat) (x : Ctx) (cpus : Option (List Int)) :
     ExcKeeps k (cpuAffinityX c k pid x cpus) := by
   cases cpus with
@@ -89,20 +132,20 @@ theorem excKeeps_cpuAffinityX (c : Cfg) (k : Kernel) (pid : Nat) (x : Ctx) (cpus
     simp only [cpuAffinityX]
     split
     · split
-      · exact excKeeps_cpuAffinitySetWith _ _ _ _ _
+      · exact excKeeps_cpuAffinitySetP _ _ _ _ _
       · split
-        · exact excKeeps_cpuAffinitySetWith _ _ _ _ _
+        · exact excKeeps_cpuAffinitySetP _ _ _ _ _
         · split
           · exact excKeeps_same _ _
-          · exact excKeeps_cpuAffinitySetWith _ _ _ _ _
-    · exact excKeeps_cpuAffinitySetWith _ _ _ _ _
+          · exact excKeeps_cpuAffinitySetP _ _ _ _ _
+    · exact excKeeps_cpuAffinitySetP _ _ _ _ _
 
 theorem excKeeps_stepX (c : Cfg) (k : Kernel) (pid : Nat) (x : Ctx) (req : Req) : ExcKeeps k (stepX c k pid x req) := by
   cases req with
   | nice v =>
     cases v with
     | none => exact excKeeps_niceGetX c k pid _
-    | some v => exact excKeeps_niceSet k pid v
+    | some v => exact excKeeps_niceSetX c k pid v
   | ionice cls v =>
     cases cls with
     | none =>
@@ -113,9 +156,9 @@ theorem excKeeps_stepX (c : Cfg) (k : Kernel) (pid : Nat) (x : Ctx) (req : Req) 
         split
         · exact excKeeps_same _ _
         · exact excKeeps_ioniceGetX c k pid _
-    | some cls => exact excKeeps_ioniceSet c k pid cls v
+    | some cls => exact excKeeps_ioniceSetX c k pid cls v
   | cpuAffinity cpus => exact excKeeps_cpuAffinityX c k pid x cpus
-  | rlimit res l => exact excKeeps_rlimitL c k pid res l
+  | rlimit res l => exact excKeeps_rlimitLX c k pid res l
 
 theorem excKeeps_stepPy (c : Cfg) (k : Kernel) (pid : Nat) (x : Ctx) (r : PyReq) : ExcKeeps k (stepPy c k pid x r) := by
   unfold stepPy
@@ -123,7 +166,7 @@ theorem excKeeps_stepPy (c : Cfg) (k : Kernel) (pid : Nat) (x : Ctx) (r : PyReq)
   · exact excKeeps_same _ _
   · unfold stepPyCore
     split
-    · exact excKeeps_cpuAffinitySetWith _ _ _ _ _
+    · exact excKeeps_cpuAffinitySetP _ _ _ _ _
     · split <;> exact excKeeps_same _ _
     · exact excKeeps_stepX c k pid x _
 
@@ -146,6 +189,117 @@ theorem frame_cpuAffinitySetWith (b : Bool) (el : Option (List Nat)) (k : Kernel
         · split <;> exact Frame.refl _ _
     · exact Frame.refl _ _
 
+theorem sysSetpriorityP_ok {k k' : Kernel} {pid : Nat} {v : Int} (h : sysSetpriorityP k pid v = .ok k') :
+    sysSetpriority k pid v = .ok k' := by
+  unfold sysSetpriorityP at h; split at h
+  · cases h
+  · exact h
+
+theorem sysIoprioSetP_ok {k k' : Kernel} {pid v : Nat} (h : sysIoprioSetP k pid v = .ok k') :
+    sysIoprioSet k pid v = .ok k' := by
+  unfold sysIoprioSetP at h; split at h
+  · cases h
+  · exact h
+
+theorem sysSchedSetaffinityP_ok {k k' : Kernel} {pid : Nat} {m : List Nat} (h : sysSchedSetaffinityP k pid m = .ok k') :
+    sysSchedSetaffinity k pid m = .ok k' := by
+  unfold sysSchedSetaffinityP at h; split at h
+  · cases h
+  · exact h
+
+theorem sysPrlimitSetP_ok {k k' : Kernel} {pid r s hd : Nat} (h : sysPrlimitSetP k pid r s hd = .ok k') :
+    sysPrlimitSet k pid r s hd = .ok k' := by
+  unfold sysPrlimitSetP at h; split at h
+  · cases h
+  · exact h
+
+theorem frame_checkedCall {checks : Bool} {k k' : Kernel} {pid : Nat} {r : Except Errno Kernel}
+    (hr : ∀ k'', r = .ok k'' → Frame pid k k'') (h : checkedCall checks k r = .ok k') : Frame pid k k' := by
+  cases r with
+  | ok k2 => simp only [checkedCall, Except.ok.injEq] at h; subst h; exact hr _ rfl
+  | error e =>
+    simp only [checkedCall] at h
+    split at h
+    · cases h
+    · cases h; exact Frame.refl _ _
+
+theorem frame_cpuAffinitySetP (c : Cfg) (el : Option (List Nat)) (k : Kernel) {pid : Nat} (h : pid ≠ 0)
+    (cpus : List Int) : Frame pid k (cpuAffinitySetP c el k pid cpus).2 := by
+  unfold cpuAffinitySetP
+  split
+  · rename_i k' hk
+    unfold cextAffinitySetP at hk
+    split at hk
+    · cases hk
+    · exact frame_checkedCall (fun k'' e => frame_sysSchedSetaffinity h (sysSchedSetaffinityP_ok e)) hk
+  · split
+    · split
+      · exact Frame.refl _ _
+      · split
+        · exact Frame.refl _ _
+        · split <;> exact Frame.refl _ _
+    · exact Frame.refl _ _
+
+theorem frame_niceSetX (c : Cfg) (k : Kernel) {pid : Nat} (h : pid ≠ 0) (v : Int) :
+    Frame pid k (niceSetX c k pid v).2 := by
+  unfold niceSetX
+  split
+  · rename_i k' hk
+    unfold cextSetpriorityP at hk
+    split at hk
+    · exact frame_checkedCall (fun k'' e => frame_sysSetpriority h (sysSetpriorityP_ok e)) hk
+    · cases hk
+  · exact Frame.refl _ _
+
+theorem frame_ioniceSetX (c : Cfg) (k : Kernel) {pid : Nat} (h : pid ≠ 0) (cls : Int) (v : Option Int) :
+    Frame pid k (ioniceSetX c k pid cls v).2 := by
+  unfold ioniceSetX
+  simp only
+  split
+  · exact Frame.refl _ _
+  · split
+    · exact Frame.refl _ _
+    · split
+      · rename_i k' hk
+        unfold cextIoprioSetP at hk
+        split at hk
+        · cases hk
+        · split at hk
+          · cases hk
+          · split at hk
+            · cases hk
+            · simp only at hk
+              split at hk
+              · exact frame_checkedCall (fun k'' e => frame_sysIoprioSet h (sysIoprioSetP_ok e)) hk
+              · cases hk
+      · exact Frame.refl _ _
+
+theorem frame_rlimitLX (c : Cfg) (k : Kernel) {pid : Nat} (h : pid ≠ 0) (res : Int) (l : Option (List Int)) :
+    Frame pid k (rlimitLX c k pid res l).2 := by
+  unfold rlimitLX
+  split
+  · exact Frame.refl _ _
+  · split
+    · split <;> exact Frame.refl _ _
+    · split
+      · exact Frame.refl _ _
+      · split
+        · rename_i k' hk
+          unfold pyPrlimitSetP at hk
+          split at hk
+          · cases hk
+          · split at hk
+            · split at hk
+              · cases hk
+              · split at hk
+                · rename_i k2 hk2
+                  cases hk
+                  exact frame_sysPrlimitSet h (sysPrlimitSetP_ok hk2)
+                · cases hk
+                · cases hk
+            · cases hk
+        · exact Frame.refl _ _
+
 theorem frame_cpuAffinityX (c : Cfg) (k : Kernel) {pid : Nat} (h : pid ≠ 0) (x : Ctx) (cpus : Option (List Int)) :
     Frame pid k (cpuAffinityX c k pid x cpus).2 := by
   cases cpus with
@@ -154,13 +308,13 @@ theorem frame_cpuAffinityX (c : Cfg) (k : Kernel) {pid : Nat} (h : pid ≠ 0) (x
     simp only [cpuAffinityX]
     split
     · split
-      · exact frame_cpuAffinitySetWith _ _ k h _
+      · exact frame_cpuAffinitySetP _ _ k h _
       · split
-        · exact frame_cpuAffinitySetWith _ _ k h _
+        · exact frame_cpuAffinitySetP _ _ k h _
         · split
           · exact Frame.refl _ _
-          · exact frame_cpuAffinitySetWith _ _ k h _
-    · exact frame_cpuAffinitySetWith _ _ k h _
+          · exact frame_cpuAffinitySetP _ _ k h _
+    · exact frame_cpuAffinitySetP _ _ k h _
 
 theorem frame_stepX (c : Cfg) (k : Kernel) {pid : Nat} (h : pid ≠ 0) (x : Ctx) (req : Req) :
     Frame pid k (stepX c k pid x req).2 := by
@@ -168,16 +322,16 @@ theorem frame_stepX (c : Cfg) (k : Kernel) {pid : Nat} (h : pid ≠ 0) (x : Ctx)
   | nice v =>
     cases v with
     | none => simp only [stepX, niceGetX]; split <;> exact Frame.refl _ _
-    | some v => exact frame_step c k h (.nice (some v))
+    | some v => exact frame_niceSetX c k h v
   | ionice cls v =>
     cases cls with
     | none =>
       cases v with
       | none => simp only [stepX, ioniceGetX]; split <;> (try split) <;> exact Frame.refl _ _
       | some v => simp only [stepX, ioniceGetX]; split <;> (try split) <;> (try split) <;> exact Frame.refl _ _
-    | some cls => exact frame_step c k h (.ionice (some cls) v)
+    | some cls => exact frame_ioniceSetX c k h cls v
   | cpuAffinity cpus => exact frame_cpuAffinityX c k h x cpus
-  | rlimit res l => exact frame_step c k h (.rlimit res l)
+  | rlimit res l => exact frame_rlimitLX c k h res l
 
 theorem frame_stepPy (c : Cfg) (k : Kernel) {pid : Nat} (h : pid ≠ 0) (x : Ctx) (r : PyReq) :
     Frame pid k (stepPy c k pid x r).2 := by
@@ -186,7 +340,7 @@ theorem frame_stepPy (c : Cfg) (k : Kernel) {pid : Nat} (h : pid ≠ 0) (x : Ctx
   · exact Frame.refl _ _
   · unfold stepPyCore
     split
-    · exact frame_cpuAffinitySetWith _ _ k h _
+    · exact frame_cpuAffinitySetP _ _ k h _
     · split <;> exact Frame.refl _ _
     · exact frame_stepX c k h x _
 
